@@ -186,7 +186,7 @@ root("paramcalls",
      [set_ref("S", "r", 2), set_formula("S", "a", L + "x + r + 100"), set_input("S", "a", [1], 40),
       cl("clear_all", "S", "a"), set_cached("S", "a", False), set_cached("P", "c", False),
       del_ref("S", "r"), set_ref("", "r", 3), {"op": "clear_items", "sp": "P"},
-      rename_cells("S", "a", "a2"), del_cells("S", "a")],
+      rename_cells("S", "a", "a2"), del_cells("S", "a"), {"op": "recalc", "v": True}],
      [q("P[1]", "c"), q("S", "a", 1)])
 
 # 8. recursion on the argument and a default parameter
